@@ -492,7 +492,102 @@ pub async fn c08_io(seed: u64, thorough: bool) {
         let kind = if !seen_err { "all-delivered".to_string() } else { format!("ends-{}", items.last().unwrap()) };
         *kinds.entry(kind).or_default() += 1;
     }
+    // Sequences of calls on ONE reader whose file handle starts anywhere: `read_at` and `read_chunks`
+    // interleaved, lists that start at offset 0, at the position the previous call ended at, or
+    // before it.  Every call must deliver exactly its ranges (the model seeks per call, so the
+    // per-call model is the oracle: the exact slices).
+    let n_seq = if thorough { 6000 } else { 600 };
+    let mut seq_calls = 0usize;
+    for case in 0..n_seq {
+        let flen = rng.range(40, 400) as usize;
+        let data = h::pattern(flen);
+        let mut file = ScriptedFile::new(data.clone(), vec![]);
+        file.default_read = Some(*rng.pick(&[1usize, 3, 7, 64, 1000]));
+        file.pos = rng.below(flen as u64 + 1);
+        file.pend_seeks = case % 4 == 0;
+        // plan: 2..5 calls
+        let mut plan: Vec<(bool, Vec<(u64, usize)>)> = Vec::new();
+        let mut last_end = file.pos;
+        for _ in 0..rng.range(2, 5) {
+            let start = match rng.below(4) {
+                0 => 0,
+                1 => last_end.min(flen as u64 - 1),
+                _ => rng.below(flen as u64 / 2),
+            };
+            let is_at = rng.chance(1, 3);
+            let mut list = Vec::new();
+            let mut off = start;
+            for _ in 0..(if is_at { 1 } else { rng.range(1, 4) }) {
+                if off >= flen as u64 {
+                    break;
+                }
+                let sz = rng.range(1, (flen as u64 - off).min(40)) as usize;
+                list.push((off, sz));
+                off += sz as u64;
+                if rng.chance(1, 3) {
+                    off += rng.below(5);
+                }
+            }
+            if list.is_empty() {
+                continue;
+            }
+            last_end = off;
+            plan.push((is_at, list));
+        }
+        let desc = format!(
+            "io-seq flen={} pos0={} calls={}",
+            flen,
+            file.pos,
+            h::join(
+                &plan.iter().map(|(a, l)| format!("{}{}", if *a { "at:" } else { "chunks:" }, chunks_token(l))).collect::<Vec<_>>(),
+                ";"
+            )
+        );
+        let plan2 = plan.clone();
+        let data2 = data.clone();
+        let res = tokio::spawn(async move {
+            let mut reader = IoReader::new(file);
+            let mut bad: Option<String> = None;
+            for (ci, (is_at, list)) in plan2.iter().enumerate() {
+                if *is_at {
+                    let (o, sz) = list[0];
+                    match reader.read_at(o, sz).await {
+                        Ok(b) if b[..] == data2[o as usize..o as usize + sz] => {}
+                        _ => bad = Some(format!("call {} read_at", ci)),
+                    }
+                } else {
+                    let chunks: Vec<ChunkOffset> = list.iter().map(|&(o, sz)| ChunkOffset::new(o, sz)).collect();
+                    let mut stream = reader.read_chunks(chunks);
+                    let mut k = 0usize;
+                    while let Some(r) = stream.next().await {
+                        let (o, sz) = list[k.min(list.len() - 1)];
+                        match r {
+                            Ok(b) if k < list.len() && b[..] == data2[o as usize..o as usize + sz] => {}
+                            _ => bad = Some(format!("call {} read_chunks item {}", ci, k)),
+                        }
+                        k += 1;
+                    }
+                    if k != list.len() {
+                        bad = Some(format!("call {} read_chunks delivered {} of {}", ci, k, list.len()));
+                    }
+                }
+                if bad.is_some() {
+                    break;
+                }
+            }
+            bad
+        })
+        .await;
+        seq_calls += plan.len();
+        match res {
+            Ok(None) => {}
+            Ok(Some(w)) => h::emit_oracle_fail("local-reader-call-sequence-not-exact", &format!("{} :: {}", desc, w)),
+            Err(_) => h::emit_oracle_fail("local-reader-call-sequence-panicked", &desc),
+        }
+    }
     h::emit_stat("cases", n_rand);
+    h::emit_stat("call_sequences", n_seq);
+    h::emit_stat("calls_in_sequences", seq_calls);
     for (k, v) in kinds {
         h::emit_stat(&format!("kind_{}", k), v);
     }
